@@ -7,7 +7,7 @@ ID = "C15"
 LEVEL = "proof"
 IMPORTS = ["SodiumModel.Properties.C15"]
 THEOREMS_FILE = os.path.join(vcore.LEAN, "SodiumModel", "Properties", "C15.lean")
-_ALL = ["hexPair_exact", "hexClassify_exact", "encChar_exact", "decChar_exact", "bin2hex_eq_spec", "hex_roundtrip",
+_ALL = ["hexPair_exact", "hexClassify_exact", "encChar_exact", "decChar_exact", "bin2hex_eq_spec", "hex_roundtrip", "hexWF_iff_gram",
         "hex_decode_spec", "hex_capacity", "hex_fail_len", "b64Len_eq", "encode_length", "b64_encode_eq_rfc",
         "b64_roundtrip", "b64_capacity", "b64_decode_iff"]
 
